@@ -66,7 +66,7 @@ RULE = (
     "corpus + exhaustive small scope + seeded random + malformed stream. stack: real TIFF stacks written with tifffile "
     "(grey / RGB / two-colour, uint8/uint16, 1-3 files, 1-10 pages, constant / variable / absent exposure, legacy "
     "Pylake<1.3.2 metadata, identity alignment matrices, pixel calibration) with every frame slice a:b:c over bounds in "
-    "[-n-1, n+1] or None and steps None,1,2,3,-1,0 on n<=5 (quick: n<=4, a sample of second-level programs), all "
+    "[-n-1, n+1] or None and steps None,1,2,3 (plus -1, 0) on n=5 and on a legacy and a variable-exposure stack of 4 pages, a sample of second-level programs, all "
     "ROIs of a 3x4 image with bounds in [-h-1, h+1] or None, integer indices, tuple indices, from_dataset incl. empty; "
     "each exported, re-read raw, reopened, exported again. confocal: kymographs and scans from generated info waves "
     "(both axis orders, 1-5 frames, dead time, lead-in) with photon counts below / at / above each dtype limit, all "
@@ -1145,10 +1145,10 @@ def cases(tier, rng):
     yield from corpus_cases()
 
     # ---------------- stack: exhaustive small scope
-    base = bt.make_spec(files=(4,) if quick else (5,), h=3, w=4, colour="grey", exposure=40_000_000, pixelsize_nm=100.0)
+    base = bt.make_spec(files=(5,), h=3, w=4, colour="grey", exposure=40_000_000, pixelsize_nm=100.0)
     n = sum(base["files"])
     yield {"stream": "small-scope", "kind": "stack", "spec": base, "prog": []}
-    alpha = slice_alphabet(n, [None, 1, 2, 3] if not quick else [None, 2, 3]) + [["s", None, None, c] for c in (-1, 0)]
+    alpha = slice_alphabet(n, [None, 1, 2, 3]) + [["s", None, None, c] for c in (-1, 0)]
     alpha += [["s", 1, n, -1], ["s", n, 0, -1]]
     for o in alpha:
         yield {"stream": "small-scope", "kind": "stack", "spec": base, "prog": [o]}
@@ -1171,6 +1171,13 @@ def cases(tier, rng):
         second.append([o1, r2.choice(rois)])
     for prog in second:
         yield {"stream": "small-scope", "kind": "stack", "spec": base, "prog": prog}
+    # every slice of a legacy stack and of a variable-exposure RGB stack in two files (the written frame ranges of a
+    # legacy selection depend on the neighbours inside the selection)
+    leg = bt.make_spec(files=(4,), h=2, w=2, colour="grey", exposure=None, frame_len=40_000_000, software="Pylake v1.3.0", period=100_000_000)
+    var = bt.make_spec(files=(2, 2), h=2, w=2, colour="rgb", exposure=[10_000_000, 20_000_000, 30_000_000, 25_000_000], gap=300_000_000)
+    for spec in (leg, var):
+        for o in slice_alphabet(4, [None, 2] if quick else [None, 1, 2, 3]):
+            yield {"stream": "small-scope", "kind": "stack", "spec": spec, "prog": [o]}
     # from_dataset incl. the empty stack (RuntimeError; legacy: IndexError)
     for s0, s1, st in [(0, 0, 1), (2, 2, 1), (1, n, 2), (0, n, 3), (n - 1, n, 1)]:
         yield {"stream": "small-scope", "kind": "stack", "spec": base, "prog": [["z", s0, s1, st]]}
@@ -1263,7 +1270,7 @@ def cases(tier, rng):
 
     # ---------------- seeded random
     r = rng.fork("c18-random")
-    N = 120 if quick else 2500
+    N = 500 if quick else 8000
     for i in range(N):
         sub = r.fork(i)
         spec = random_spec(sub, max_pages=6 if quick else 10)
@@ -1271,7 +1278,7 @@ def cases(tier, rng):
         prog = random_prog(sub, n, spec["h"], spec["w"], sub.choice([0, 1, 1, 2, 2, 3]))
         yield {"stream": "random", "kind": "stack", "spec": spec, "prog": prog, "subseed": i}
     r = rng.fork("c18-random-confocal")
-    N = 60 if quick else 1500
+    N = 250 if quick else 4000
     for i in range(N):
         sub = r.fork(i)
         dtype = sub.choice(["u8", "u16", "f32"])
@@ -1303,7 +1310,7 @@ def cases(tier, rng):
             c["derive"] = sub.choice(ders)
         yield dict(c, stream="random", subseed=i)
     r = rng.fork("c18-random-mixin")
-    N = 150 if quick else 4000
+    N = 500 if quick else 10000
     for i in range(N):
         sub = r.fork(i)
         dtype = sub.choice(["u8", "u16", "f32"])
